@@ -47,6 +47,13 @@ inductive Memo
   | none | notJson | noEibc | eibc (fee : Int) | eibcBad
   deriving DecidableEq, Repr, Inhabited
 
+/-- what `RollappPacket.Error` records when the callback at finalization failed -/
+inductive PErr
+  | ackClosed                                -- `WriteAcknowledgement`: the channel end is not OPEN / FLUSHING / FLUSHCOMPLETE
+  | ackExists                                -- `WriteAcknowledgement`: an acknowledgement is already stored
+  | refund (bal amt : Int) (d : Denom)       -- the refund could not be paid out of the channel escrow (balance, amount)
+  deriving DecidableEq, Repr, Inhabited
+
 /-- `commontypes.RollappPacket` (with the ICS-20 data it carries, already interpreted) -/
 structure Packet where
   status : Status
@@ -62,7 +69,7 @@ structure Packet where
   target : Addr            -- hub address in the transfer data: receiver (recv) / sender (ack, timeout)
   orig : Option Addr       -- OriginalTransferTarget
   ackErr : Bool            -- ON_ACK: the stored acknowledgement is an error acknowledgement
-  failed : Bool            -- Error != ""
+  perr : Option PErr       -- Error (none = "")
   deriving DecidableEq, Repr, Inhabited
 
 structure Order where
@@ -155,13 +162,14 @@ structure St where
   nextSeq : List (Nat × Nat)
   acks : List ((Nat × Nat) × Bool)
   log : List LogE
+  closed : List Nat                      -- hub channels whose channel end is CLOSED
   restored : List ((Nat × Nat) × Addr)   -- ghost: commitments restored by a hard fork, with the refund address committed to
   deriving Repr, Inhabited
 
 inductive Err
   | notFound | notFinal | noFinalState | notPending | inactive | fulfilled | feeMismatch | noAccount
   | insufficient | unauthorized | feeTooHigh | badMemo | invalid | badKey | rollappMismatch
-  | priceMismatch | notValidated | noState | noLp | notOwner | noGrant | blocked | badChannel | internal
+  | priceMismatch | notValidated | noState | noLp | notOwner | noGrant | blocked | badChannel | chanClosed | internal
   deriving DecidableEq, Repr, Inhabited
 
 abbrev M := Except Err
@@ -372,7 +380,7 @@ structure RecvData where
   memo : Memo
   deriving Repr, Inhabited
 
-inductive RecvRes | replay | async | ackOk | ackErr
+inductive RecvRes | replay | async | ackOk | ackErr | closed
   deriving DecidableEq, Repr
 
 def cpIdOf (s : St) (c : Nat) : Bytes := match s.chans[c]? with | some ch => ch.cpId | none => []
@@ -387,7 +395,7 @@ def drefUnescrow : DRef → Bool
 def mkRecvPacket (s : St) (c seq ph : Nat) (rid : Bytes) (d : RecvData) (tgt : Addr) : Packet :=
   { status := .pending, rollappId := rid, proofHeight := ph, ptype := .onRecv, srcChan := cpIdOf s c, seq := seq, chan := c,
     denom := drefDenom c d.dref, unescrow := drefUnescrow d.dref, amount := d.amount, target := tgt, orig := none,
-    ackErr := false, failed := false }
+    ackErr := false, perr := none }
 
 /-- the acknowledgement core IBC writes after a synchronous callback -/
 def writeAck (s : St) (c seq : Nat) (ok : Bool) : St := { s with acks := s.acks ++ [((c, seq), ok)] }
@@ -430,16 +438,20 @@ def recvAuth (s0 : St) (c seq ph : Nat) (d : RecvData) : St × RecvRes :=
       if ra.isNone || isFinalizedFor s0 ra ph then recvPass s0 c seq (mkRecvPacket s0 c seq ph (ra.getD []) d tgt) ra
       else recvDelay s0 c seq (mkRecvPacket s0 c seq ph (ra.getD []) d tgt) d.memo
 
-/-- ibc-go core `RecvPacket` + `IBCMiddleware.OnRecvPacket` -/
-def recvPacket (s : St) (c seq ph : Nat) (d : RecvData) : St × RecvRes :=
+/-- ibc-go core `RecvPacket` (channel end open) + `IBCMiddleware.OnRecvPacket` -/
+def recvOpen (s : St) (c seq ph : Nat) (d : RecvData) : St × RecvRes :=
   if s.receipts.contains (c, seq) then (s, .replay) else
   recvAuth { s with receipts := s.receipts ++ [(c, seq)] } c seq ph d
+
+/-- ibc-go core `RecvPacket`: the channel state is checked before anything else -/
+def recvPacket (s : St) (c seq ph : Nat) (d : RecvData) : St × RecvRes :=
+  if s.closed.contains c then (s, .closed) else recvOpen s c seq ph d
 
 def getSent (s : St) (c seq : Nat) : Option Sent := s.sent.find? (fun x => x.chan == c && x.seq == seq)
 
 def mkSentPacket (s : St) (x : Sent) (t : PType) (ph : Nat) (rid : Bytes) (ackErr : Bool) : Packet :=
   { status := .pending, rollappId := rid, proofHeight := ph, ptype := t, srcChan := hubIdOf s x.chan, seq := x.seq, chan := x.chan,
-    denom := x.denom, unescrow := x.unescrow, amount := x.amount, target := x.sender, orig := none, ackErr := ackErr, failed := false }
+    denom := x.denom, unescrow := x.unescrow, amount := x.amount, target := x.sender, orig := none, ackErr := ackErr, perr := none }
 
 def sentType (isTimeout : Bool) : PType := if isTimeout then .onTimeout else .onAck
 
@@ -472,11 +484,16 @@ def ackAuth (s0 : St) (x : Sent) (ph : Nat) (isTimeout isErr : Bool) : M (Option
 /-- ibc-go core `AcknowledgePacket` / `TimeoutPacket` + the middleware callback.
     `isErr`: error acknowledgement (timeouts always refund).
     `.ok none` = redelivery (no commitment): no-op. -/
-def ackPacket (s : St) (c seq ph : Nat) (isTimeout : Bool) (isErr : Bool) : M (Option St) :=
+def ackOpen (s : St) (c seq ph : Nat) (isTimeout : Bool) (isErr : Bool) : M (Option St) :=
   if !s.commits.contains (c, seq) then .ok none else
   match getSent s c seq with
   | none => .error .internal
   | some x => ackAuth { s with commits := s.commits.filter (· != (c, seq)) } x ph isTimeout isErr
+
+/-- `AcknowledgePacket` refuses a channel end that is not OPEN / FLUSHING; `TimeoutPacket` does not look
+    at the channel state (timeouts are accepted on closed channels) -/
+def ackPacket (s : St) (c seq ph : Nat) (isTimeout : Bool) (isErr : Bool) : M (Option St) :=
+  if !isTimeout && s.closed.contains c then .error .chanClosed else ackOpen s c seq ph isTimeout isErr
 
 /-- `MsgTransfer` (ibc-go transfer `sendTransfer` through the hub's ICS4 wrappers) -/
 def getNextSeq (s : St) (c : Nat) : Nat :=
@@ -493,13 +510,17 @@ def recordSent (s : St) (a : Addr) (c : Nat) (d : Denom) (amt : Int) (seq : Nat)
            commits := s.commits ++ [(c, seq)],
            nextSeq := (c, seq + 1) :: s.nextSeq.filter (·.1 != c) }
 
-def sendTransfer (s : St) (a : Addr) (c : Nat) (d : Denom) (amt : Int) : M St :=
+def sendOpen (s : St) (a : Addr) (c : Nat) (d : Denom) (amt : Int) : M St :=
   if amt ≤ 0 then .error .invalid else
   match chanRollapp s c with
   | .error e => .error e
   | .ok _ =>
     if getBal s.bal a d < amt then .error .insufficient else
     .ok (recordSent (lockCoins s a c d amt) a c d amt (getNextSeq s c))
+
+/-- core `SendPacket` requires an OPEN channel end -/
+def sendTransfer (s : St) (a : Addr) (c : Nat) (d : Denom) (amt : Int) : M St :=
+  if s.closed.contains c then .error .chanClosed else sendOpen s a c d amt
 
 -- ---------------------------------------------------------------- finalization (x/delayedack/keeper/finalize.go)
 
@@ -515,24 +536,28 @@ def recvRelease (s : St) (p : Packet) : St × Bool :=
   | some s1 => (s1, true)
   | none => (s, false)
 
-/-- `writeRecvAck`: `WriteAcknowledgement` fails when an acknowledgement is already stored -/
-def writeRecvAck (s : St) (p : Packet) (ok : Bool) : St × Bool :=
-  if hasAck s p.chan p.seq then (s, true) else (writeAck s p.chan p.seq ok, false)
+def isClosed (s : St) (c : Nat) : Bool := s.closed.contains c
+
+/-- `writeRecvAck`: `WriteAcknowledgement` checks the channel state first, then (the capability and)
+    that no acknowledgement is stored yet; its error ends up in the packet's `Error` -/
+def writeRecvAck (s : St) (p : Packet) (ok : Bool) : St × Option PErr :=
+  if isClosed s p.chan then (s, some .ackClosed) else
+  if hasAck s p.chan p.seq then (s, some .ackExists) else (writeAck s p.chan p.seq ok, none)
 
 /-- refund at finalization inside `ApplyFuncIfNoError` -/
-def refundRelease (s : St) (p : Packet) : St × Bool :=
+def refundRelease (s : St) (p : Packet) : St × Option PErr :=
   match icsRefund s p with
-  | some s1 => (s1, false)
-  | none => (s, true)
+  | some s1 => (s1, none)
+  | none => (s, some (.refund (getBal s.bal (escrowAcct p.chan) p.denom) p.amount p.denom))
 
 /-- the type switch of `finalizeRollappPacket`: run the ICS-20 callback for real;
-    the flag is "`packetErr != nil`" -/
-def releaseEffect (s : St) (p : Packet) : St × Bool :=
+    the second component is `packetErr` -/
+def releaseEffect (s : St) (p : Packet) : St × Option PErr :=
   match p.ptype with
   | .onRecv => writeRecvAck (recvRelease s p).1 p (recvRelease s p).2
-  | .onAck => if p.ackErr then refundRelease s p else (s, false)
+  | .onAck => if p.ackErr then refundRelease s p else (s, none)
   | .onTimeout => refundRelease s p
-  | .undefined => (s, false)
+  | .undefined => (s, none)
 
 /-- `RestoreOriginalTransferTarget`: the packet as the hub first saw it (the returned copy is what
     `writeRecvAck` acknowledges and what `OnHardFork` commits to; the caller's packet is untouched) -/
@@ -551,7 +576,8 @@ def updateAfterFinalization (s : St) (p : Packet) : M St :=
 
 /-- the packet as `finalizeRollappPacket` hands it to `UpdateRollappPacketAfterFinalization`:
     `Error` is set when the callback failed; it still names the current beneficiary -/
-def finalizedRecord (p : Packet) (failed : Bool) : Packet := { p with failed := p.failed || failed }
+def finalizedRecord (p : Packet) (e : Option PErr) : Packet :=
+  { p with perr := match e with | some x => some x | none => p.perr }
 
 /-- `FinalizeRollappPacket` -/
 def finalizePacket (s : St) (k : Bytes) : M St :=
@@ -916,7 +942,14 @@ inductive Op
   | fork (rid : Bytes) (h : Nat)
   | epoch
   | block
+  | chanClose (c : Nat)
+  | chanOpen (c : Nat)
   deriving Repr, Inhabited
+
+/-- the channel end's state is written: CLOSED (`ChanCloseConfirm`) or OPEN again -/
+def setChanClosed (s : St) (c : Nat) (closed : Bool) : M St :=
+  if s.chans.length ≤ c then .error .invalid else
+  .ok { s with closed := if closed then (if s.closed.contains c then s.closed else s.closed ++ [c]) else s.closed.filter (· != c) }
 
 inductive Out
   | ok | err (e : Err) | recv (r : RecvRes) | replay
@@ -954,6 +987,8 @@ def step (s : St) : Op → St × Out
   | .fork rid h => ofM s (forkRollapp s rid h)
   | .epoch => (epochCleanup s, .ok)
   | .block => ({ s with h := s.h + 1 }, .ok)
+  | .chanClose c => ofM s (setChanClosed s c true)
+  | .chanOpen c => ofM s (setChanClosed s c false)
 
 def run (s : St) (ops : List Op) : St := ops.foldl (fun s o => (step s o).1) s
 
@@ -964,6 +999,6 @@ def initSt (nActors : Nat) (fund : Int) (bridgingFee timeoutFee errAckFee : Dec)
     chans := chans, ras := [{ id := ra0, heights := [], nFin := 0 }, { id := ra1, heights := [], nFin := 0 }],
     packets := [], byAddr := [], orders := [], lps := [], nextLp := 0, grants := [],
     bal := (List.range nActors).flatMap (fun a => (List.range 5).map (fun d => ((a, d), fund))), accts := List.range nActors,
-    receipts := [], commits := [], sent := [], nextSeq := [], acks := [], log := [], restored := [] }
+    receipts := [], commits := [], sent := [], nextSeq := [], acks := [], log := [], closed := [], restored := [] }
 
 end DymVerif.Packets
